@@ -64,6 +64,8 @@ pub struct TraceStats {
     pub err_invalid: u64,
     pub err_fatal: u64,
     pub stale_attempt_errors: u64,
+    pub head_attempts: u64,
+    pub head_attempts_blocked: u64,
     pub signature: u64,
     pub threads_started: u64,
     pub threads_ended: u64,
@@ -83,7 +85,7 @@ impl TraceStats {
             ben_reads_committed, storage_reads_committed, dep_added, dep_cleared_by_remove,
             dep_stale_edges, dep_commit_release, dep_key_barrier, dep_key_immediate, dep_handoffs,
             parks, park_timeouts, notifies, notifies_before_register, err_blocked, err_invalid,
-            err_fatal, stale_attempt_errors, threads_started, threads_ended
+            err_fatal, stale_attempt_errors, head_attempts, head_attempts_blocked, threads_started, threads_ended
         );
         for (k, n) in &o.abort_kinds {
             *self.abort_kinds.entry(k.clone()).or_insert(0) += n;
@@ -127,6 +129,7 @@ impl TraceStats {
             "exec_errors_invalid_tx": self.err_invalid,
             "exec_errors_fatal": self.err_fatal,
             "exec_errors_from_attempts_not_started_at_commit_head": self.stale_attempt_errors,
+            "exec_attempts_started_at_commit_head": self.head_attempts,
             "threads_started": self.threads_started,
             "threads_ended": self.threads_ended,
         })
@@ -199,6 +202,25 @@ pub fn check_trace(inp: &TraceInput<'_>) -> (Vec<Violation>, TraceStats) {
                     sig.add(txid as u64);
                     sig.add(incarnation as u64);
                     sig.add(outcome as u64);
+                    // HEAD: an attempt that started with every predecessor committed reads only
+                    // final data: no estimate may be left below the committed prefix, so it can
+                    // neither be blocked nor (below) fail validation. A stale estimate there makes
+                    // the head re-execute forever (livelock) or revises a committed effect.
+                    if matches!(outcome, ExecOutcome::OkBlocked | ExecOutcome::ErrBlocked) &&
+                        begin_at_head.get(&(txid, incarnation)) == Some(&true)
+                    {
+                        st.head_attempts_blocked += 1;
+                        out.push(v(
+                            "HEAD",
+                            "C05",
+                            format!(
+                                "tx {txid} (incarnation {incarnation}) started with all predecessors committed but was blocked by an estimate: a stale speculative version survives below the committed prefix"
+                            ),
+                        ));
+                    }
+                    if begin_at_head.get(&(txid, incarnation)) == Some(&true) {
+                        st.head_attempts += 1;
+                    }
                     match outcome {
                         ExecOutcome::ErrBlocked => st.err_blocked += 1,
                         ExecOutcome::ErrInvalid => st.err_invalid += 1,
@@ -234,6 +256,15 @@ pub fn check_trace(inp: &TraceInput<'_>) -> (Vec<Violation>, TraceStats) {
                     } else {
                         st.validation_conflicts += 1;
                         last_ok_validation_begin[txid] = None;
+                        if begin_at_head.get(&(txid, incarnation)) == Some(&true) {
+                            out.push(v(
+                                "HEAD",
+                                "C02",
+                                format!(
+                                    "validation of tx {txid} (incarnation {incarnation}) failed although the attempt started with all predecessors committed: what it read below the committed prefix changed afterwards"
+                                ),
+                            ));
+                        }
                     }
                     if final_seen[txid] {
                         out.push(v("TS", "C02", format!("tx {txid} validated after it became final")));
